@@ -338,6 +338,8 @@ func init() {
 }
 
 func runC04(c *rt.Ctx) {
+	configuredEpisode() // the process has a past: failing configured Formatters and Parsers, since restored
+	c.Extra("history_before_the_streams", "an episode of failing configured Formatter/Parser variables in all five packages")
 	c.SetRule("sizes: all values below 2^20 (exhaustive), odd x 2^k for every k in 0..63, every decimal length 1..20, neighbours of 1000^k and 1024^k, the largest multiples of each 1024^k, 2^64-1..2^64-4, seeded 64-bit values; x all 8 combinations of DisableMarshalTextUnit / DisableMarshalJSONStringForm / DisableMarshalJSONObjectForm; " +
 		"paths: MarshalText->UnmarshalText, MarshalJSON->UnmarshalJSON (plus a check that the form is the one the switches select), String/PrettyString/BytesString/BytesJSONNumber -> parser, json.Marshal->json.Unmarshal of a document with struct field, pointer field, slice, map value, nested struct with pointer slice, and map key. " +
 		"distinct_nontrivial counts distinct (size, switches) pairs with size >= 1024 or not a multiple of 1024 (by value hash)")
